@@ -383,6 +383,11 @@ type Spec struct {
 	// the caller is analysed once per group of exits that agree on the Split tags (the decision a helper took —
 	// which mode, which case — stays known in the caller, e.g. when it is handed back as a struct of flags).
 	Fork bool
+	// DeferAtExit: a deferred function literal is not summarised where it is registered but run where the function
+	// leaves — after the returned values were bound to the named results, from the state of that exit (so a clean-up
+	// that depends on flags and on the error being returned is followed per exit); the closure's own exits become
+	// the function's. Literals registered on some paths only keep the registration-time treatment.
+	DeferAtExit bool
 
 	nextInline int
 	paramRoot  map[types.Object]types.Object // parameter of a callee being analysed in context -> the caller's variable it stands for
@@ -588,10 +593,13 @@ type runner struct {
 	inline     int
 	body       *ast.BlockStmt
 	// forking at calls analysed in context (Spec.Fork)
-	probing   bool
-	forkReq   *forkReq
-	force     map[*ast.CallExpr][]int
-	forkDepth int
+	deferLits  map[Tag]*ast.FuncLit
+	deferOrder []Tag
+	inDefers   bool
+	probing    bool
+	forkReq    *forkReq
+	force      map[*ast.CallExpr][]int
+	forkDepth  int
 }
 
 type forkReq struct {
@@ -1439,6 +1447,20 @@ func (r *runner) node(b *cfg.Block, n ast.Node, st *State) {
 func (r *runner) deferOrGo(b *cfg.Block, c *ast.CallExpr, st *State, prefix string) {
 	for _, a := range c.Args {
 		r.evalExpr(b, a, st)
+	}
+	if lit, ok := ast.Unparen(c.Fun).(*ast.FuncLit); ok && prefix == "defer:" && r.sp.DeferAtExit && len(c.Args) == 0 && !r.inLoop[b] {
+		t := deferLitTag(lit)
+		st.Must[t] = true
+		st.May[t] = true
+		if r.deferLits == nil {
+			r.deferLits = map[Tag]*ast.FuncLit{}
+		}
+		if _, seen := r.deferLits[t]; !seen {
+			r.deferLits[t] = lit
+			r.deferOrder = append(r.deferOrder, t)
+		}
+		r.useFreeVarsKeep(lit, st)
+		return
 	}
 	if lit, ok := ast.Unparen(c.Fun).(*ast.FuncLit); ok {
 		r.sp.litOwner = r.fi
@@ -2662,8 +2684,18 @@ func (r *runner) assign(b *cfg.Block, a *ast.AssignStmt, st *State) {
 				delete(st.Eq, o)
 				continue
 			}
+			// what the right-hand side is known to be is decided before the old value's facts go (x = wrap(x))
+			pre := int8(0)
+			if nillable(o.Type()) {
+				pre = r.exprNil(a.Rhs[i], st)
+			}
 			r.killVar(o, st, a.Pos())
 			r.bind(o, a.Rhs[i], st)
+			if pre != 0 {
+				if _, known := st.Nil[o]; !known {
+					st.Nil[o] = pre
+				}
+			}
 		}
 	}
 }
@@ -2981,6 +3013,9 @@ func (r *runner) exitWith(ret *ast.ReturnStmt, results []ast.Expr, pos token.Pos
 	if !r.record {
 		return
 	}
+	if r.sp.DeferAtExit && !r.inDefers && len(r.deferOrder) > 0 && r.runDefersAtExit(ret, results, pos, st, ex) {
+		return
+	}
 	if ex.Class == ExitOK {
 		for or := range st.Unrep {
 			r.res.Swallows = append(r.res.Swallows, Swallow{Origin: or, Exit: ex})
@@ -2998,6 +3033,103 @@ func (r *runner) exitWith(ret *ast.ReturnStmt, results []ast.Expr, pos token.Pos
 		}
 	}
 	r.res.Exits = append(r.res.Exits, ex)
+}
+
+func deferLitTag(lit *ast.FuncLit) Tag { return "deferlit:" + strconv.Itoa(int(lit.Pos())) }
+
+// useFreeVarsKeep: registering a deferred literal reads nothing yet (its body runs at exit)
+func (r *runner) useFreeVarsKeep(lit *ast.FuncLit, st *State) {}
+
+// runDefersAtExit runs the deferred literals registered on every path to this exit, last registered first, from the
+// exit's state with the returned values bound to the named results; the exits of the last closure become the
+// function's exits (class taken from what is known about the named error result there). Reports false when no
+// literal is registered on this path.
+func (r *runner) runDefersAtExit(ret *ast.ReturnStmt, results []ast.Expr, pos token.Pos, st *State, ex0 *Exit) bool {
+	var lits []*ast.FuncLit
+	for i := len(r.deferOrder) - 1; i >= 0; i-- {
+		t := r.deferOrder[i]
+		if st.Must[t] {
+			lits = append(lits, r.deferLits[t])
+		}
+	}
+	if len(lits) == 0 {
+		return false
+	}
+	// all results must be named for the closures to see (and change) them
+	named := len(r.results) == r.nres
+	for _, o := range r.results {
+		if o == nil {
+			named = false
+		}
+	}
+	start := st.copy()
+	if named && len(results) == r.nres && ret != nil && len(ret.Results) > 0 {
+		for i, o := range r.results {
+			if id, ok := ast.Unparen(results[i]).(*ast.Ident); ok && r.info.Uses[id] == o {
+				continue
+			}
+			r.killVar(o, start, pos)
+			r.bind(o, results[i], start)
+		}
+	}
+	if named && r.errIdx >= 0 {
+		switch ex0.Class {
+		case ExitOK:
+			start.Nil[r.results[r.errIdx]] = isNil
+		case ExitErr:
+			start.Nil[r.results[r.errIdx]] = isNonNil
+		}
+	}
+	states := []*State{start}
+	r.inDefers = true
+	for _, lit := range lits {
+		var next []*State
+		for _, s0 := range states {
+			seed := s0.copy()
+			saved := r.sp.nextInline
+			r.sp.nextInline = r.inline
+			r.sp.nextFn = r.fi
+			sub := r.sp.run(r.pkg, lit.Type, lit.Body, r.sp.W.LitCFG(r.pkg, lit), r.depth, seed)
+			r.sp.nextInline = saved
+			r.res.Calls = append(r.res.Calls, sub.Calls...)
+			r.res.Assigns = append(r.res.Assigns, sub.Assigns...)
+			r.res.Drops = append(r.res.Drops, sub.Drops...)
+			for _, sx := range sub.Exits {
+				next = append(next, sx.St)
+			}
+		}
+		states = next
+	}
+	r.inDefers = false
+	for _, fs := range states {
+		ex := &Exit{Stmt: ret, Pos: pos, St: fs, Results: ex0.Results, Class: ex0.Class, BoolRes: ex0.BoolRes, ErrOrigin: ex0.ErrOrigin, OkImplies: ex0.OkImplies, FailImpl: ex0.FailImpl, Via: ex0.Via}
+		if named && r.errIdx >= 0 {
+			o := r.results[r.errIdx]
+			switch fs.Nil[o] {
+			case isNil:
+				ex.Class = ExitOK
+			case isNonNil:
+				ex.Class = ExitErr
+			default:
+				ex.Class = ExitEither
+			}
+			var rs []ast.Expr
+			for _, ro := range r.results {
+				rs = append(rs, ast.NewIdent(ro.Name()))
+			}
+			ex.Results = rs
+			if ex.Class != ExitEither {
+				ex.ErrOrigin, ex.OkImplies, ex.FailImpl = nil, map[Tag]bool{}, map[Tag]bool{}
+			}
+		}
+		if ex.Class == ExitOK {
+			for or := range fs.Unrep {
+				r.res.Swallows = append(r.res.Swallows, Swallow{Origin: or, Exit: ex})
+			}
+		}
+		r.res.Exits = append(r.res.Exits, ex)
+	}
+	return true
 }
 
 func (r *runner) summarise() *Summary {
